@@ -1404,8 +1404,6 @@ async def do_sum(
             f"sum() can't sum {type(start).__name__} [use b''.join(seq) instead]"
         )
 
-    rv = start
-
     if attribute is not None:
         func = make_attrgetter(environment, attribute)
     else:
@@ -1413,11 +1411,12 @@ async def do_sum(
         def func(x: V) -> V:
             return x
 
-    async for item in auto_aiter(iterable):
-        # Not "+=": like the builtin sum, never extend a mutable start in place.
-        rv = rv + func(item)
-
-    return rv
+    # Collect the values, then add them with the builtin sum like the sync
+    # version: same result for floats (the builtin sum adds them with
+    # compensation since Python 3.12, a plain "rv = rv + x" loop does not),
+    # and a mutable start is never extended in place.
+    values = [func(item) async for item in auto_aiter(iterable)]
+    return sum(values, start)  # type: ignore[no-any-return, call-overload]
 
 
 def sync_do_list(value: "t.Iterable[V]") -> "list[V]":
